@@ -1685,6 +1685,8 @@ def _probe_main(argv):
     p1file = os.path.join(work, "phase1.json")
     if os.path.exists(p1file) and "--redo-phase1" not in argv:
         finfo = json.load(open(p1file))
+    elif os.path.exists(SUPPORTED) and "--redo-phase1" not in argv and "--fresh" not in argv and json.load(open(SUPPORTED)).get("functors"):
+        finfo = json.load(open(SUPPORTED))["functors"]
     else:
         finfo = _phase1(work, jobs)
         json.dump(finfo, open(p1file, "w"), indent=1, sort_keys=True)
@@ -1746,7 +1748,7 @@ def _probe_main(argv):
     for e in ok:
         del e["orig"]
     with open(SUPPORTED, "w") as f:
-        f.write('{"version": 1, "note": "compile-probed once against the unchanged tree by: python3-vt -m vf.c14_gen --probe",\n')
+        f.write('{"version": 1, "note": "compile-probed once against the unchanged tree by: VERIF_JOBS=8 python3-vt -m vf.c14_gen --probe --nb=130 --nc=190 (incremental: verdicts in this file are kept unless --fresh; --redo-phase1 re-runs the per-functor facts)",\n')
         f.write(' "functors": %s,\n' % json.dumps(finfo, sort_keys=True))
         f.write(' "core": %s,\n' % json.dumps(core_out))
         f.write(' "supported": [\n')
